@@ -684,7 +684,7 @@ func (m *Machine) opSwap(t *rapid.T, adversarial bool) bool {
 		}
 		return true
 	}
-	variant := rapid.SampledFrom([]string{"over1", "overflow", "no_fee", "inflate_input", "inactive_out", "unknown_out", "dup_out", "resigned_out", "zero_out", "dup_in_identical", "dup_in_witness", "dup_in_dleq"}).Draw(t, "swap_variant")
+	variant := rapid.SampledFrom([]string{"over1", "overflow", "no_fee", "inflate_input", "inactive_out", "unknown_out", "dup_out", "resigned_out", "zero_out", "no_outputs", "dup_in_identical", "dup_in_witness", "dup_in_dleq"}).Draw(t, "swap_variant")
 	var outs []world.Out
 	switch variant {
 	case "over1":
@@ -743,6 +743,15 @@ func (m *Machine) opSwap(t *rapid.T, adversarial bool) bool {
 		outs[0].Msg.B_ = b
 	case "zero_out":
 		outs = w.MakeOutputs([]uint64{0}, w.ActiveID)
+	case "no_outputs":
+		// a swap that asks for nothing: whatever the mint answers, an accepted one has consumed its (small) inputs
+		if len(inputs) > 1 {
+			inputs = inputs[:1]
+		}
+		if inputs[0].Amount > 16 {
+			return false
+		}
+		outs = nil
 	case "dup_in_identical", "dup_in_witness", "dup_in_dleq":
 		d := inputs[0]
 		if variant == "dup_in_witness" {
